@@ -2,6 +2,7 @@
 from .. import configs
 from ..algorun import replay_algo, run_algo_task
 from ..refs.vroom import VroomOracle
+from ..world import InterposedQuery
 
 ID = "C13"
 LEVEL = "model_checking"
@@ -10,7 +11,8 @@ RULE = ("VROOM x budgets n in {4,8,16} (ranking depth 2..4) x depth cap {below, 
         "rounds and every outcome of the internal sampling (cell index at np.random.choice, both directions at each descent step, "
         "split/uniform fractions) with <= k departures from the default answer; plus E-dev(T=n).  At each pull the probability vector "
         "intercepted at the sampler, the ranks and the drawn cell / credited path / returned point are judged.  "
-        "distinct_nontrivial = executions in which a non-default cell was drawn.")
+        "A second family of tasks interposes get_last_point() between pull and receive_reward (choice point): the reward must still be "
+        "credited along the path recorded at the pull.  distinct_nontrivial = executions in which a non-default cell was drawn.")
 ASSUMPTIONS = ["np.random.choice samples according to the p it is handed (trusted): the distribution is checked as the vector given to the sampler",
                "binary-child partitions only (others are finding D8 of C01)", "tolerance 1e-9; rank ties free"]
 VACUITY = [("pulls_judged", "no pull judged"), ("descents", "no descent below the drawn cell"), ("pulls_with_history", "ranks never judged on a non-empty history")]
@@ -38,6 +40,9 @@ def tasks(tier, seed):
         rk = ({4: 2, 8: 2, 16: 1}[n]) if tier == "quick" else 2
         ts.append({"kind": "algo", "label": "full/" + lab, "cfg": cfg, "mode": "full", "T": T, "R": list(configs.R2),
                    "rng_k": rk, "cost": n, "max_exec": 60000 if tier == "quick" else 800000})
+        # get_last_point() asked between pull and receive_reward (environment move, <= 1 (thorough 2) departures among RNG answers and queries)
+        ts.append({"kind": "algo", "label": "fullq/" + lab, "cfg": cfg, "mode": "full", "T": T + 1, "R": list(configs.R2),
+                   "query_k": 1 if tier == "quick" else 2, "interpose": True, "cost": n, "max_exec": 60000 if tier == "quick" else 800000})
         dk = 1 if (tier == "quick" or n == 16) else 2
         ts.append({"kind": "algo", "label": "dev/" + lab, "cfg": cfg, "mode": "dev", "T": n, "R": list(configs.R3), "base": "twopeak",
                    "k": dk, "cost": n, "max_exec": 60000 if tier == "quick" else 800000})
@@ -48,6 +53,10 @@ def _mk():
     return [VroomOracle()]
 
 
+def _mkq():
+    return [VroomOracle(), InterposedQuery()]
+
+
 def _nontrivial(ctx):
     log = ctx.seam.choice_log
     if any(e[2] != 0 for e in log):
@@ -56,11 +65,11 @@ def _nontrivial(ctx):
 
 
 def run_task(task):
-    return run_algo_task(task, _mk, nontrivial=_nontrivial)
+    return run_algo_task(task, _mkq if task.get("interpose") else _mk, nontrivial=_nontrivial)
 
 
 def replay(task, script):
-    return replay_algo(task, script, _mk)
+    return replay_algo(task, script, _mkq if task.get("interpose") else _mk)
 
 
 def bounds(tier):
